@@ -867,11 +867,12 @@ static void cfg_init_defaults(cfg_t *cfg)
 DLLIMPORT cfg_value_t *cfg_setopt(cfg_t *cfg, cfg_opt_t *opt, const char *value)
 {
 	cfg_value_t *val = NULL;
-	int b;
+	int b = 0;
 	const char *s;
-	double f;
-	long int i;
-	void *p;
+	char *str = NULL;
+	double f = 0;
+	long int i = 0;
+	void *p = NULL;
 	char *endptr;
 
 	if (!cfg || !opt) {
@@ -879,63 +880,16 @@ DLLIMPORT cfg_value_t *cfg_setopt(cfg_t *cfg, cfg_opt_t *opt, const char *value)
 		return NULL;
 	}
 
-	if (opt->simple_value.ptr) {
-		if (opt->type == CFGT_SEC) {
-			errno = EINVAL;
-			return NULL;
-		}
-		val = (cfg_value_t *)opt->simple_value.ptr;
-	} else {
-		if (is_set(CFGF_RESET, opt->flags)) {
-			cfg_free_value(opt);
-			opt->flags &= ~CFGF_RESET;
-		}
-
-		if (opt->nvalues == 0 || is_set(CFGF_MULTI, opt->flags) || is_set(CFGF_LIST, opt->flags)) {
-			val = NULL;
-
-			if (opt->type == CFGT_SEC && is_set(CFGF_TITLE, opt->flags)) {
-				unsigned int i;
-
-				/* XXX: Check if there already is a section with the same title. */
-
-				/*
-				 * Check there are either no sections at
-				 * all, or a non-NULL section title.
-				 */
-				if (opt->nvalues != 0 && !value) {
-					errno = EINVAL;
-					return NULL;
-				}
-
-				for (i = 0; i < opt->nvalues && val == NULL; i++) {
-					cfg_t *sec = opt->values[i]->section;
-
-					if (is_set(CFGF_NOCASE, cfg->flags)) {
-						if (strcasecmp(value, sec->title) == 0)
-							val = opt->values[i];
-					} else {
-						if (strcmp(value, sec->title) == 0)
-							val = opt->values[i];
-					}
-				}
-
-				if (val && is_set(CFGF_NO_TITLE_DUPES, opt->flags)) {
-					cfg_error(cfg, _("found duplicate title '%s'"), value);
-					return NULL;
-				}
-			}
-
-			if (!val) {
-				val = cfg_addval(opt);
-				if (!val)
-					return NULL;
-			}
-		} else {
-			val = opt->values[0];
-		}
+	if (opt->simple_value.ptr && opt->type == CFGT_SEC) {
+		errno = EINVAL;
+		return NULL;
 	}
 
+	/*
+	 * Convert the value first.  The option is not touched before the
+	 * new value is known to be good, so that a value which is refused
+	 * leaves the option exactly as it was.
+	 */
 	switch (opt->type) {
 	case CFGT_INT:
 		if (opt->parsecb) {
@@ -976,7 +930,6 @@ DLLIMPORT cfg_value_t *cfg_setopt(cfg_t *cfg, cfg_opt_t *opt, const char *value)
 				return NULL;
 			}
 		}
-		val->number = i;
 		break;
 
 	case CFGT_FLOAT:
@@ -999,7 +952,6 @@ DLLIMPORT cfg_value_t *cfg_setopt(cfg_t *cfg, cfg_opt_t *opt, const char *value)
 				return NULL;
 			}
 		}
-		val->fpnumber = f;
 		break;
 
 	case CFGT_STR:
@@ -1016,10 +968,112 @@ DLLIMPORT cfg_value_t *cfg_setopt(cfg_t *cfg, cfg_opt_t *opt, const char *value)
 			return NULL;
 		}
 
-		free(val->string);
-		val->string = strdup(s);
-		if (!val->string)
+		str = strdup(s);
+		if (!str)
 			return NULL;
+		break;
+
+	case CFGT_SEC:
+		break;
+
+	case CFGT_BOOL:
+		if (opt->parsecb) {
+			if ((*opt->parsecb) (cfg, opt, value, &b) != 0)
+				return NULL;
+		} else {
+			b = cfg_parse_boolean(value);
+			if (b == -1) {
+				cfg_error(cfg, _("invalid boolean value for option '%s'"), opt->name);
+				return NULL;
+			}
+		}
+		break;
+
+	case CFGT_PTR:
+		if (!opt->parsecb) {
+			errno = EINVAL;
+			return NULL;
+		}
+
+		if ((*opt->parsecb) (cfg, opt, value, &p) != 0)
+			return NULL;
+		break;
+
+	default:
+		cfg_error(cfg, "internal error in cfg_setopt(%s, %s)", opt->name, (value) ? (value) : "NULL");
+		return NULL;
+	}
+
+	/* Find the value slot to store into */
+	if (opt->simple_value.ptr) {
+		val = (cfg_value_t *)opt->simple_value.ptr;
+	} else {
+		if (opt->type == CFGT_SEC && is_set(CFGF_TITLE, opt->flags) &&
+		    (opt->nvalues == 0 || is_set(CFGF_MULTI, opt->flags) || is_set(CFGF_LIST, opt->flags))) {
+			unsigned int i;
+
+			/* XXX: Check if there already is a section with the same title. */
+
+			/*
+			 * Check there are either no sections at
+			 * all, or a non-NULL section title.
+			 */
+			if (opt->nvalues != 0 && !value) {
+				errno = EINVAL;
+				return NULL;
+			}
+
+			for (i = 0; i < opt->nvalues && val == NULL; i++) {
+				cfg_t *sec = opt->values[i]->section;
+
+				if (is_set(CFGF_NOCASE, cfg->flags)) {
+					if (strcasecmp(value, sec->title) == 0)
+						val = opt->values[i];
+				} else {
+					if (strcmp(value, sec->title) == 0)
+						val = opt->values[i];
+				}
+			}
+
+			if (val && is_set(CFGF_NO_TITLE_DUPES, opt->flags)) {
+				cfg_error(cfg, _("found duplicate title '%s'"), value);
+				return NULL;
+			}
+		}
+
+		if (!val) {
+			if (is_set(CFGF_RESET, opt->flags)) {
+				cfg_free_value(opt);
+				opt->flags &= ~CFGF_RESET;
+			}
+
+			if (opt->nvalues == 0 || is_set(CFGF_MULTI, opt->flags) || is_set(CFGF_LIST, opt->flags)) {
+				val = cfg_addval(opt);
+				if (!val) {
+					free(str);
+					if (p && opt->freecb)
+						opt->freecb(p);
+					return NULL;
+				}
+			} else {
+				val = opt->values[0];
+			}
+		}
+	}
+
+	/* Store */
+	switch (opt->type) {
+	case CFGT_INT:
+		val->number = i;
+		break;
+
+	case CFGT_FLOAT:
+		val->fpnumber = f;
+		break;
+
+	case CFGT_STR:
+		free(val->string);
+		val->string = str;
 		break;
 
 	case CFGT_SEC:
@@ -1075,35 +1129,17 @@ DLLIMPORT cfg_value_t *cfg_setopt(cfg_t *cfg, cfg_opt_t *opt, const char *value)
 		break;
 
 	case CFGT_BOOL:
-		if (opt->parsecb) {
-			if ((*opt->parsecb) (cfg, opt, value, &b) != 0)
-				return NULL;
-		} else {
-			b = cfg_parse_boolean(value);
-			if (b == -1) {
-				cfg_error(cfg, _("invalid boolean value for option '%s'"), opt->name);
-				return NULL;
-			}
-		}
 		val->boolean = (cfg_bool_t)b;
 		break;
 
 	case CFGT_PTR:
-		if (!opt->parsecb) {
-			errno = EINVAL;
-			return NULL;
-		}
-
-		if ((*opt->parsecb) (cfg, opt, value, &p) != 0)
-			return NULL;
 		if (val->ptr && opt->freecb)
 			opt->freecb(val->ptr);
 		val->ptr = p;
 		break;
 
 	default:
-		cfg_error(cfg, "internal error in cfg_setopt(%s, %s)", opt->name, (value) ? (value) : "NULL");
-		return NULL;
+		break;
 	}
 
 	opt->flags |= CFGF_MODIFIED;
